@@ -439,6 +439,158 @@ Proof.
   intros en [<-|[]]. exact H3.
 Qed.
 
+(* ---------- CallableStep.Call called directly with a native input ---------- *)
+Notation DIRECT := (call_direct words pu e fuel).
+
+Lemma direct_log : forall h ps p run sid v,
+  match alookup sid p with
+  | Some st => match VALID (sd_input st) v with
+               | Ok _ => exists d, log_of (DIRECT h ps p run sid v) = [LStep sid run d v]
+               | _ => log_of (DIRECT h ps p run sid v) = []
+               end
+  | None => log_of (DIRECT h ps p run sid v) = []
+  end.
+Proof.
+  intros. unfold call_direct, log_of.
+  destruct (alookup sid p) as [st|]; [|reflexivity].
+  destruct (VALID (sd_input st) v) as [u| | |]; try reflexivity.
+  destruct (setup_step_data (sd_has_init st) run (tab_of ps sid)) as [t' d].
+  destruct (h sid v) as [oid od]. simpl. eexists; reflexivity.
+Qed.
+
+(* the handler runs — once, with exactly the value passed in — iff that value passes the step's input
+   schema: the re-validation in step.go is what shields the handler on this path *)
+Lemma direct_handler_iff : forall h ps p run sid v,
+  (exists d, log_of (DIRECT h ps p run sid v) = [LStep sid run d v]) <->
+  (exists st, alookup sid p = Some st /\ VALID (sd_input st) v = Ok tt).
+Proof.
+  intros. pose proof (direct_log h ps p run sid v) as H.
+  destruct (alookup sid p) as [st|].
+  - destruct (VALID (sd_input st) v) as [u|er|w|] eqn:EV.
+    + destruct u. split; [intros _; exists st; split; [reflexivity|exact EV]|intros _; exact H].
+    + split; [intros [d Hd]; rewrite H in Hd; discriminate|].
+      intros [st' [E1 E2]]. inversion E1; subst st'. congruence.
+    + split; [intros [d Hd]; rewrite H in Hd; discriminate|].
+      intros [st' [E1 E2]]. inversion E1; subst st'. congruence.
+    + split; [intros [d Hd]; rewrite H in Hd; discriminate|].
+      intros [st' [E1 E2]]. inversion E1; subst st'. congruence.
+  - split; [intros [d Hd]; rewrite H in Hd; discriminate|]. intros [st [E1 _]]. discriminate.
+Qed.
+
+Lemma direct_handler_none_iff : forall h ps p run sid v,
+  log_of (DIRECT h ps p run sid v) = [] <->
+  ~ (exists st, alookup sid p = Some st /\ VALID (sd_input st) v = Ok tt).
+Proof.
+  intros. rewrite <- (direct_handler_iff h ps p run sid v).
+  pose proof (direct_log h ps p run sid v) as H.
+  destruct (alookup sid p) as [st|].
+  - destruct (VALID (sd_input st) v) as [u| | |].
+    + destruct H as [d Hd]. rewrite Hd. split; [discriminate|]. intros Hn. exfalso. apply Hn. exists d. reflexivity.
+    + rewrite H. split; [intros _ [d Hd]; discriminate|reflexivity].
+    + rewrite H. split; [intros _ [d Hd]; discriminate|reflexivity].
+    + rewrite H. split; [intros _ [d Hd]; discriminate|reflexivity].
+  - rewrite H. split; [intros _ [d Hd]; discriminate|reflexivity].
+Qed.
+
+Lemma direct_handler_never_twice : forall h ps p run sid v,
+  (List.length (log_of (DIRECT h ps p run sid v)) <= 1)%nat.
+Proof.
+  intros. pose proof (direct_log h ps p run sid v) as H.
+  destruct (alookup sid p) as [st|]; [|rewrite H; simpl; lia].
+  destruct (VALID (sd_input st) v); [destruct H as [d ->]|rewrite H..]; simpl; lia.
+Qed.
+
+(* a value the input schema rejects — a correctly typed one that violates a constraint included — is
+   answered with InvalidInputError and nothing else happens: no handler, no step data *)
+Lemma direct_invalid_input : forall h ps p run sid v er,
+  res_of (DIRECT h ps p run sid v) = SErr (CEInvalidInput er) <->
+  exists st, alookup sid p = Some st /\ VALID (sd_input st) v = Err er.
+Proof.
+  intros. unfold call_direct, res_of, check_output_direct. split.
+  - destruct (alookup sid p) as [st|]; [|discriminate].
+    destruct (VALID (sd_input st) v) as [u|er'| |] eqn:EV; try discriminate.
+    + destruct (setup_step_data (sd_has_init st) run (tab_of ps sid)) as [t' d].
+      destruct (h sid v) as [oid od]. simpl.
+      destruct (alookup oid (sd_outputs st)) as [os|]; [|discriminate].
+      destruct (VALID os od); discriminate.
+    + intros H; inversion H; subst. exists st. split; [reflexivity|exact EV].
+  - intros [st [Hst HV]]. rewrite Hst, HV. reflexivity.
+Qed.
+
+Lemma direct_rejected_untouched : forall h ps p run sid v st er,
+  alookup sid p = Some st -> VALID (sd_input st) v = Err er ->
+  DIRECT h ps p run sid v = (SErr (CEInvalidInput er), [], ps).
+Proof. intros h ps p run sid v st er Hst HV. unfold call_direct. rewrite Hst, HV. reflexivity. Qed.
+
+Lemma direct_output_checked : forall h ps p run sid v oid od,
+  res_of (DIRECT h ps p run sid v) = SOk (oid, od) <->
+  exists st os, alookup sid p = Some st /\ VALID (sd_input st) v = Ok tt /\ h sid v = (oid, od) /\
+    alookup oid (sd_outputs st) = Some os /\ VALID os od = Ok tt.
+Proof.
+  intros. unfold call_direct, res_of, check_output_direct. split.
+  - destruct (alookup sid p) as [st|]; [|discriminate].
+    destruct (VALID (sd_input st) v) as [u| | |] eqn:EV; try discriminate.
+    destruct (setup_step_data (sd_has_init st) run (tab_of ps sid)) as [t' d].
+    destruct (h sid v) as [oid' od'] eqn:Eh. simpl.
+    destruct (alookup oid' (sd_outputs st)) as [os|] eqn:Eo; [|discriminate].
+    destruct (VALID os od') as [u'| | |] eqn:Ev; try discriminate.
+    intros H; inversion H; subst. unit_ok. exists st, os. repeat split; auto.
+  - intros [st [os [Hst [Hv [Hh [Ho Hov]]]]]]. rewrite Hst, Hv.
+    destruct (setup_step_data (sd_has_init st) run (tab_of ps sid)) as [t' d].
+    rewrite Hh. simpl. rewrite Ho, Hov. reflexivity.
+Qed.
+
+(* CallStep = Unserialize ; Call ; Serialize: on an input that unserializes to n, CallableSchema.CallStep
+   makes exactly the handler invocations and run-table changes of the direct call with n, and its result
+   is the direct call's result with the output data serialized *)
+Definition serialize_result (st : step_d) (r : sres (string * gval)) : sres (string * gval) :=
+  match r with
+  | SOk (oid, od) =>
+      match alookup oid (sd_outputs st) with
+      | None => SErr CEUndeclaredOutput
+      | Some os =>
+          match SERIAL os od with
+          | Ok w => SOk (oid, w)
+          | Err er => SErr (CEOutputSerialize er)
+          | Panic w => SPanic w
+          | OutOfFuel => SFuel
+          end
+      end
+  | other => other
+  end.
+
+Lemma call_step_factors : forall h ps p run sid raw st n,
+  alookup sid p = Some st -> UNSER (sd_input st) raw = Ok n ->
+  CALL h ps p run sid raw =
+  (serialize_result st (res_of (DIRECT h ps p run sid n)), log_of (DIRECT h ps p run sid n),
+   state_of (DIRECT h ps p run sid n)).
+Proof.
+  intros h ps p run sid raw st n Hst HU. unfold call_step, call_direct, res_of, log_of, state_of.
+  rewrite Hst, HU.
+  destruct (VALID (sd_input st) n) as [u| | |]; try reflexivity.
+  destruct (setup_step_data (sd_has_init st) run (tab_of ps sid)) as [t' d].
+  destruct (h sid n) as [oid od]. simpl.
+  unfold check_output, check_output_direct.
+  destruct (alookup oid (sd_outputs st)) as [os|] eqn:Eo; [|reflexivity].
+  destruct (VALID os od) as [u'| | |]; try reflexivity.
+  simpl. rewrite Eo. destruct (SERIAL os od); reflexivity.
+Qed.
+
+Lemma call_direct_inv : forall h p ps run sid v,
+  ps_inv p ps ->
+  ps_inv p (state_of (DIRECT h ps p run sid v)) /\ ps_grows ps (state_of (DIRECT h ps p run sid v)) /\
+  log_ok (state_of (DIRECT h ps p run sid v)) (log_of (DIRECT h ps p run sid v)).
+Proof.
+  intros h p ps run sid v Hinv. unfold call_direct, state_of, log_of.
+  destruct (alookup sid p) as [st|] eqn:Hst; [|simpl; auto using ps_grows_refl, log_ok_nil].
+  destruct (VALID (sd_input st) v) as [u| | |]; try (simpl; auto using ps_grows_refl, log_ok_nil).
+  destruct (setup_step_data (sd_has_init st) run (tab_of ps sid)) as [t' d] eqn:Es.
+  destruct (h sid v) as [oid od]. simpl.
+  destruct (setup_in_ps _ _ _ _ _ _ _ Hst Hinv Es) as [H1 [H2 H3]].
+  split; [exact H1|]. split; [exact H2|].
+  intros en [<-|[]]. exact H3.
+Qed.
+
 Notation EXEC_OP := (exec_op words pu e fuel).
 Notation EXEC_ACC := (exec_acc words pu e fuel).
 Notation EXEC_OPS := (exec_ops words pu e fuel).
@@ -448,11 +600,13 @@ Lemma exec_op_inv : forall p ps o,
   ps_inv p (state_of (EXEC_OP p ps o)) /\ ps_grows ps (state_of (EXEC_OP p ps o)) /\
   log_ok (state_of (EXEC_OP p ps o)) (log_of (EXEC_OP p ps o)).
 Proof.
-  intros p ps o Hinv. destruct o as [run sid raw h|run sid sig raw]; unfold exec_op.
+  intros p ps o Hinv. destruct o as [run sid raw h|run sid sig raw|run sid v h]; unfold exec_op.
   - pose proof (call_step_inv h p ps run sid raw Hinv) as H.
     destruct (CALL h ps p run sid raw) as [[r l] ps']. exact H.
   - pose proof (call_signal_inv p ps run sid sig raw Hinv) as H.
     destruct (SIGNAL ps p run sid sig raw) as [[r l] ps']. exact H.
+  - pose proof (call_direct_inv h p ps run sid v Hinv) as H.
+    destruct (DIRECT h ps p run sid v) as [[r l] ps']. exact H.
 Qed.
 
 Definition all_logs (res : list (op_result * list log_entry)) : list log_entry := flat_map snd res.
